@@ -198,6 +198,21 @@ def gen_tree(rng, prefix, lower, allow_nested):
                               "default": {"kind": "int", "v": rng.randrange(0, 9)}}
                         TYPES[nf["name"]] = nf
                         own.append(nf)
+                elif sibs and mode < 0.33:   # a sibling's fields, some taken as init=False instead of through __init__, plus
+                    # extra init=False fields: FEWER __init__ arguments but MORE fields than that sibling (guards 8845ab5:
+                    # candidates are ordered by their number of fields, not of init fields)
+                    src = rng.choice(sibs)
+                    own = [dict(f) for f in src["fields"]]
+                    flip = [f for f in own if f["ty"]["k"] == "int" and f["init"]]
+                    for f in (rng.sample(flip, rng.randrange(1, len(flip) + 1)) if flip else []):
+                        f["init"] = False
+                        if f["default"]["kind"] == "missing":
+                            f["default"] = {"kind": "int", "v": rng.randrange(0, 9)}
+                    free = [q for q in pool if q not in inh and q not in [o["name"] for o in own] and q not in TYPES]
+                    for q in free[: rng.choice([1, 2, 2])]:
+                        nf = {"name": q, "init": False, "ty": {"k": "int"}, "default": {"kind": "int", "v": rng.randrange(0, 9)}}
+                        TYPES[q] = nf
+                        own.append(nf)
                 elif mode < 0.40:          # identical to the parent
                     own = []
                 else:
